@@ -59,6 +59,12 @@ CHECKS = {
  'C14': ('exhaustive table check of ES5 section 15 shape in 5 runtime contexts + distinguishing calls + recursive shape dumps',
          'A hand-transcribed table of every ES5.1 section 15 binding (kind, length, attributes, class, links) is evaluated exhaustively in fresh/second/underscore/Copy/Copy-of-Copy runtimes. Finite space enumerated completely (exhaustive: true).',
          'trusted base: internal/es5table transcription'),
+ 'C17': ('relational monitor: canonical heap dump (JS walker + host-side object-identity table) of a copy vs a freshly built equivalent and of the original before/after the copy is mutated; reflective walk of both runtimes for mutable Go heap nodes reachable from both',
+         'A template runtime (fixed rich prelude + generated program) is copied; the copy must dump identically to the original and must behave like it under a mutation sequence and probes (equivalence to a runtime built by replaying the same sources), mutating either side must leave the other side\'s dump unchanged (isolation, both directions and copy-of-copy), and no mutable Go object other than an allow-listed set of immutable tables may be reachable from both runtimes. Exploration over generated templates and mutation sequences.',
+         'trusted base: the JS dumper (uses only property-model built-ins checked by C07/C14), the allow-list of immutable shared nodes in internal/checks/c17'),
+ 'C20': ('Go race detector on a -race build of the harness + trace equality against a sequential baseline + deep hash of shared compiled artefacts',
+         'N in {2,8,32} goroutines each drive their own runtime in six sharing modes (fresh runtimes, copies taken concurrently from one template, one compiled Script, one parsed Program, concurrent Compile, underscore registry) over generated programs, a built-in-heavy program touching every package-level table, a program exercising every per-call table of the compiled tree, and touch sequences over rich template state. Each new race-detector report is a violation; every runtime\'s trace must equal its sequential baseline; the shared Script/Program must hash identically before and after. Exploration: the detector sees only executed accesses.',
+         'trusted base: Go race detector (happens-before, no false positives on instrumented code); harness-side shared state is a sync.Map and atomics'),
 }
 LEVEL = {k: 'exploration' for k in CHECKS}
 LEVEL['C18'] = 'fault_enumeration'
